@@ -517,3 +517,120 @@ def run(rep, tier):
             stubs=["pandas -> record-level stand-in (symx/fakepd.py)", "io.StringIO -> piece collector", "IoAdapterPy -> capture / replay of DataCategory rows"])
     rep.assume("pd.to_numeric turns numeric text into a number and anything else into NaN; astype('category') keeps values; pd.isna is true for None/NaN",
                "number text is canonical (no leading zeros, no '-0')")
+
+
+# ======================================================================================================
+# extension: large tables through the real pandas and the real mmcif writer (concretising mode)
+# ======================================================================================================
+LARGE_N = [2, 17, 300, 900]
+LARGE_ROUTES = ["pdb-pdb", "pdb-cif-pdb", "cif-cif"]
+
+
+def large_lines(n, nmodels, nchains):
+    """canonical PDB text: n atoms per model, nchains chains per model (contiguous), 4 atoms per residue; also the expected records"""
+    names = [" P  ", " C1'", " N9 ", " C4 "]
+    out, recs = [], []
+    for m in range(1, nmodels + 1):
+        out.append("MODEL     %4d" % m + " " * 66)
+        for i in range(n):
+            chain = "ABC"[(i * nchains) // n]
+            res = 1 + i // 4
+            nm = names[i % 4]
+            serial = i + 1
+            x, y, z = -12.5 + 0.371 * i, 3.25 + 0.113 * (i % 50), 100.0 - 0.07 * i
+            out.append("ATOM  %5d %s %3s %s%4d    %8.3f%8.3f%8.3f%6.2f%6.2f          %2s  " % (serial, nm, "G", chain, res, x, y, z, 1.0, 10.0 + (i % 7), nm.strip()[0]))
+            recs.append((m, serial, nm.strip(), chain, res, round(x, 3), round(y, 3), round(z, 3)))
+        out.append("ENDMDL" + " " * 74)
+    return out, recs
+
+
+def body_large(ni, nmodels, nchains, route):
+    from harness.e1_common import log, known_keys
+    import io, warnings
+    warnings.filterwarnings("ignore")
+    from rnapolis.parser_v2 import parse_pdb_atoms, parse_cif_atoms, write_pdb, write_cif
+    n = LARGE_N[ni]
+    lines, recs = large_lines(n, nmodels, nchains)
+    text = "\n".join(lines) + "\nEND\n"
+    problems = []
+
+    def table(df):
+        cols = ["model", "serial", "name", "chainID", "resSeq", "x", "y", "z"] if df.attrs.get("format") == "PDB" else \
+               ["pdbx_PDB_model_num", "id", "auth_atom_id", "auth_asym_id", "auth_seq_id", "Cartn_x", "Cartn_y", "Cartn_z"]
+        return [(int(r[0]), int(r[1]), str(r[2]), str(r[3]), int(r[4]), round(float(r[5]), 3), round(float(r[6]), 3), round(float(r[7]), 3))
+                for r in df[cols].itertuples(index=False, name=None)]
+    try:
+        df = parse_pdb_atoms(io.StringIO(text))
+        if table(df) != recs:
+            problems.append("parse_pdb_atoms: the table differs from the records written")
+        if LARGE_ROUTES[route] == "pdb-pdb":
+            out = write_pdb(df)
+        elif LARGE_ROUTES[route] == "pdb-cif-pdb":
+            mid = parse_cif_atoms(write_cif(df))
+            if table(mid) != recs:
+                problems.append("PDB->mmCIF: the table read back from the written mmCIF differs (atom order / fields)")
+            out = write_pdb(mid)
+        else:
+            mid = parse_cif_atoms(write_cif(df))
+            again = parse_cif_atoms(write_cif(mid))
+            if table(again) != recs or table(mid) != recs:
+                problems.append("mmCIF->mmCIF: the table read back differs (atom order / fields)")
+            out = None
+        if out is not None:
+            got = [ln for ln in out.split("\n") if ln.startswith(("ATOM", "HETATM", "MODEL", "ENDMDL", "TER"))]
+            want_atoms = [ln for ln in lines if ln.startswith("ATOM")]
+            got_atoms = [ln for ln in got if ln.startswith("ATOM")]
+            if len(got_atoms) != len(want_atoms):
+                problems.append(f"{len(got_atoms)} atom lines written for {len(want_atoms)}")
+            else:
+                for a, b2 in zip(want_atoms, got_atoms):
+                    # serials may shift by the TER records; every other column must be identical
+                    if a[11:] != b2[11:] or len(b2) != 80:
+                        problems.append(f"atom line changed: {a!r} -> {b2!r}")
+                        break
+            ters = sum(1 for ln in got if ln.startswith("TER"))
+            if ters != nmodels * nchains:
+                problems.append(f"{ters} TER records for {nmodels} model(s) x {nchains} chain(s)")
+            if sum(1 for ln in got if ln.startswith("MODEL")) != nmodels or sum(1 for ln in got if ln.startswith("ENDMDL")) != nmodels:
+                problems.append("MODEL / ENDMDL records do not enclose every model")
+            back = table(parse_pdb_atoms(io.StringIO(out)))
+            if [r[:1] + r[2:] for r in back] != [r[:1] + r[2:] for r in recs]:
+                problems.append("the written PDB reads back to a different table")
+    except Exception as e:  # noqa: BLE001
+        problems.append(f"exception {type(e).__name__}: {e}")
+    problems = sorted(set(problems))
+    keys = ["parser_v2:large-table"] if problems else []
+    ok = all(k in known_keys(PID) for k in keys)
+    log({"p": [ni, nmodels, nchains, route], "problems": [p_[:300] for p_ in problems[:3]], "keys": keys, "kind": "large"})
+    return ok
+
+
+def replay(rec):
+    import harness.e1_common as ec
+    saved = ec.known_keys
+    ec.known_keys = lambda pid: set()
+    try:
+        return body_large(*rec["p"])
+    finally:
+        ec.known_keys = saved
+
+
+_run_symbolic = run
+
+
+def run(rep, tier):   # noqa: F811
+    import z3
+    from vlib import allsat, e1
+    _run_symbolic(rep, tier)
+    N, M, C, R = z3.Int("n"), z3.Int("models"), z3.Int("chains"), z3.Int("route")
+    cons = [N >= 0, N < (3 if tier == "quick" else len(LARGE_N)), M >= 1, M <= 2, C >= 1, C <= 3, C != 2, R >= 0, R < len(LARGE_ROUTES), z3.Implies(N == 0, C == 1)]
+    models, nq, dt = allsat.allsat([N, M, C, R], cons)
+    rep.add(transitions=nq, solver_s=dt)
+    exp = (1 + 2 * (2 if tier == "quick" else 3)) * 2 * 3
+    pt = allsat.run_family("large_tables", "harness.c09", "body_large", [tuple(m) for m in models],
+                           [f"n atoms per model in {LARGE_N[:3] if tier == 'quick' else LARGE_N}, 1-2 models, 1 or 3 chains, route in {LARGE_ROUTES}", "canonical PDB text; real pandas and real mmcif writer"],
+                           expected=exp, chunksize=1)
+    e1.collect(rep, [pt], "harness.c09")
+    rep.cov["functions_encoded"].append("parse_pdb_atoms / write_pdb / write_cif / parse_cif_atoms natively on tables of up to 2 x 900 atoms (real pandas, real mmcif)")
+    rep.cov["bounds"]["large tables"] = f"{exp} tables: atoms per model {LARGE_N[:3] if tier == 'quick' else LARGE_N}, models 1-2, chains 1 or 3, routes {LARGE_ROUTES} (z3 AllSAT over the parameter formula, native execution)"
+    rep.cov["engines"].append("z3 AllSAT (concretising mode) for the large-table family")
